@@ -29,7 +29,7 @@ import ast
 import re
 
 from ..roles import node_calls
-from ..core import AnalysisError, RuleContext, need, norm, short
+from ..core import region, AnalysisError, RuleContext, need, norm, short
 from ..model import walk_scope
 
 EXPLANATION = __doc__
@@ -180,6 +180,7 @@ def run(ctx: RuleContext):
     ctx.sub(check_init_subclass, ctx)
     ctx.sub(check_name_extraction_shape, ctx)
     ctx.sub(check_no_memo_between_dtype_and_verdict, ctx)
+    ctx.sub(check_last_dotted_component, ctx)
 
 
 FAMILY_RE = {
@@ -648,6 +649,58 @@ def check_name_extraction_shape(ctx):
             ctx.ok("C03.3", f.qualname, f"a constant dtype name: `{short(st, 70)}`")
         else:
             ctx.bad("C03.3", f, st, "the dtype name compared with the category is not derived from obj.dtype")
+
+
+def check_last_dotted_component(ctx):
+    """C03.6: a duck / torch-style dtype is named by the *last* dotted component of its repr
+    (`torch.float32`, `mlx.core.float32` -> `float32`).  A split that keeps everything after the *first*
+    dot (`split(".", 1)[-1]`, `partition(".")[2]`) gives `core.float32` for a dotted module path: every
+    category but Shaped then rejects arrays of that backend."""
+    m = ctx.model
+    f = m.func("_array_types._MetaAbstractArray.__instancecheck_str__")
+    n = 0
+    for fn_ in region(m, f):
+        for x in ast.walk(fn_.node):
+            sel = None
+            call = None
+            if isinstance(x, ast.Subscript) and isinstance(x.value, ast.Call) and isinstance(x.value.func, ast.Attribute):
+                call = x.value
+                sl = x.slice
+                if isinstance(sl, ast.UnaryOp) and isinstance(sl.op, ast.USub) and isinstance(sl.operand, ast.Constant):
+                    sel = -sl.operand.value
+                elif isinstance(sl, ast.Constant) and isinstance(sl.value, int):
+                    sel = sl.value
+            elif isinstance(x, ast.Assign) and isinstance(x.value, ast.Call) and isinstance(x.value.func, ast.Attribute) and isinstance(x.targets[0], (ast.Tuple, ast.List)):
+                call = x.value
+                elts = x.targets[0].elts
+                if elts and isinstance(elts[0], ast.Starred) and len(elts) == 2:
+                    sel = -1
+                elif len(elts) == 2 and isinstance(elts[1], ast.Name) and not any(isinstance(e, ast.Starred) for e in elts):
+                    sel = 1
+                elif len(elts) == 3 and not any(isinstance(e, ast.Starred) for e in elts):
+                    sel = 2
+            if call is None or sel is None:
+                continue
+            meth = call.func.attr
+            if meth not in ("split", "rsplit", "partition", "rpartition"):
+                continue
+            if not (call.args and isinstance(call.args[0], ast.Constant) and call.args[0].value == "."):
+                continue
+            if "dtype" not in norm(call.func.value):
+                continue
+            n += 1
+            maxsplit = call.args[1].value if len(call.args) > 1 and isinstance(call.args[1], ast.Constant) else None
+            takes_last = (meth == "rsplit" and sel in (-1, 1) and maxsplit == 1) or (meth in ("split", "rsplit") and maxsplit is None and sel == -1) \
+                or (meth == "rpartition" and sel in (-1, 2))
+            takes_rest_after_first = (meth == "split" and maxsplit == 1 and sel in (-1, 1)) or (meth == "partition" and sel in (-1, 2))
+            if takes_last:
+                ctx.ok("C03.6", fn_.qualname, f"`{short(x, 60)}`: the last dotted component of the dtype repr")
+            elif takes_rest_after_first:
+                ctx.bad("C03.6", fn_, x, f"`{short(x, 70)}` keeps everything after the *first* dot of the dtype repr: a backend whose dtypes live in a dotted module "
+                        "path (`mlx.core.float32`) is named `core.float32` and rejected by every category; the name is the last dotted component")
+            else:
+                raise AnalysisError(f"C03.6: which component of the dotted dtype repr `{short(x, 60)}` selects was not recognised")
+    ctx.counters["dotted_repr_selections"] = n
 
 
 def check_no_memo_between_dtype_and_verdict(ctx):
